@@ -18,7 +18,7 @@ def decode_outcome(line):
     return f[0], b""
 
 def suite(pid, tier, make_gen, n, uses=("super::wrap_html", "crate::P"), extra_files=None, callee_bodies=None,
-          fault_schedules=False, rule="", pert_variants=2, lead="|", check_layout=True, extra_cases=None, post=None, max_src=900, dirs=None, uses_for=None):
+          fault_schedules=False, rule="", pert_variants=2, lead="|", check_layout=True, extra_cases=None, post=None, max_src=900, dirs=None, uses_for=None, decl_variants=False):
     chk = Check(pid, tier); rng = chk.rng
     info = ensure_all()
     proof = proof_step(pid, thorough=(tier == "thorough"))
@@ -27,11 +27,12 @@ def suite(pid, tier, make_gen, n, uses=("super::wrap_html", "crate::P"), extra_f
     for i in range(n):
         d = dirs[i % len(dirs)] if dirs else ""
         u = uses_for(d) if uses_for else uses
+        decl = decl_variant(rng) if decl_variants and i % 3 == 0 else None
         for _try in range(50):
             items = g.items()
-            canon = make_template(g, items, "canon", u, lead).encode()
+            canon = make_template(g, items, "canon", u, lead, decl).encode()
             if len(canon) <= max_src: break
-        perts = [make_template(g, items, "pert", u, lead).encode() for _ in range(pert_variants)]
+        perts = [make_template(g, items, "pert", u, lead, decl).encode() for _ in range(pert_variants)]
         T.append(dict(i=i, items=items, canon=canon, perts=perts, dir=d, expect=[e.encode() for e in expected(g, items, lead, callee_bodies)]))
     for x in (extra_cases or []):
         x["i"] = len(T); T.append(x)
@@ -193,10 +194,15 @@ def run_c03(pid, tier):
 # ---------------------------------------------------------------------------------------- C15
 def run_c15(pid, tier):
     n = 300 if tier == "quick" else 3000
-    mk = lambda rng: Gen(rng, depth=3)
-    return suite(pid, tier, mk, n, pert_variants=4,
+    # callees identical to wrap_html except for the whitespace inside their declarations (around the colon of Content parameters too)
+    wraps = {"wrapa": "@(t:impl ToHtml, c:Content, d :Content)", "wrapb": "@( t : impl ToHtml,\n   c:\n     Content,\n   d:  Content\n)", "wrapc": "@(t: impl ToHtml,c:\tContent,d : Content )"}
+    files = {"t/%s.rs.html" % k: (v + "\n[@t|@:c()|@:d()]").encode() for k, v in wraps.items()}
+    callees = dict({"wrap_html": 2}, **{k + "_html": 2 for k in wraps})
+    mk = lambda rng: Gen(rng, depth=3, callees=callees)
+    return suite(pid, tier, mk, n, pert_variants=4, decl_variants=True, extra_files=files, uses=tuple("super::" + c for c in sorted(callees)) + ("crate::P",),
                  rule="templates from the structured generator (all directive kinds, calls with block arguments, use lines) x random layouts (spaces, tabs, LF, CRLF, one-line and multi-line comments, "
-                      "comments ending in several stars) at every insignificant position: around @use lines, after the declaration, after a directive keyword, before '{', around else / in / => , between match arms, after call commas and block arguments.")
+                      "comments ending in several stars) at every insignificant position: around @use lines, after the declaration, after a directive keyword, before '{', around else / in / => , between match arms, after call commas and block arguments. "
+                      "A third of the templates, and three of the four callee templates, carry other whitespace inside their parameter declarations (around colons - of Content parameters too -, after commas, inside the parentheses); their behaviour is compared with the canonical expectation.")
 
 # ---------------------------------------------------------------------------------------- C14
 def run_c14(pid, tier):
@@ -276,7 +282,14 @@ class ExprGen:
         A, fa = self.int_expr(d - 1); B, fb = self.int_expr(d - 1)
         sp = R.choice(["", " "])
         if k == 0: return "(%s%s+%s%s)" % (A, sp, sp, B), lambda a: fa(a) + fb(a)
-        if k == 1: return "(%s /* ) ] } \" ' */ + %s)" % (A, B), lambda a: fa(a) + fb(a)
+        if k == 1:
+            body = "".join(R.choice([" ", ")", "]", "}", "(", '"', "'", "*", "**", "x", "/", " * ", "@", "\\"]) for _ in range(R.randint(0, 5)))
+            body = body.replace("*/", "* /") + R.choice(["", "*", "**", " ", "***"])
+            # Rust block comments nest, ructe's do not: keep "/*" out of the body (also the one formed with the closing star), so the fragment is valid Rust
+            while "/*" in body + "*": body = (body + "*").replace("/*", "/ *")[:-1]
+            # "/**x*/" is a doc comment (not allowed inside an expression) unless it is "/***..." or "/**/"
+            if (body + "*/").startswith("*") and not (body + "*/").startswith(("**", "*/")): body = " " + body
+            return "(%s /*%s*/ + %s)" % (A, body, B), lambda a: fa(a) + fb(a)
         if k == 2: return "(%s%s/%s(1))" % (A, sp, sp), fa
         if k == 3:
             sl, sv = '"ab"', "ab"
@@ -384,6 +397,14 @@ def run_c05(pid, tier):
         toks = ["@", "(", ")", "[", "]", "{", "}", '"', "/*", "*/", "/", "*", "\\", "a", "1", ".", "::", "!", "&", " ", ",", "\\\"", "'", "\xff", "é"]
         s0 = "@" + "".join(rng.choice(toks) for _ in range(rng.randint(1, 10)))
         mal.append(dict(canon=(head + "|").encode() + s0.encode("latin1"), perts=[], items=None, tag="malformed"))
+    # exhaustive strings over the delimiter / quote / comment token alphabet inside @( ) and @f( )
+    SC = ["(", ")", "[", "]", "{", "}", '"', "\\", "/", "*", "/*", "*/", "a", " ", '\\"', "\\\\"]
+    LS = 3 if tier == "quick" else 4
+    for l in range(0, LS + 1):
+        for t in itertools.product(SC, repeat=l):
+            x = "".join(t)
+            mal.append(dict(canon=(head + "|@(" + x + ")|").encode(), perts=[], items=None, tag="scan"))
+            if l <= LS - 1: mal.append(dict(canon=(head + "|@f[" + x + "]{" + x + "}|").encode(), perts=[], items=None, tag="scan"))
     extra_rs = "static C: std::sync::atomic::AtomicU32 = std::sync::atomic::AtomicU32::new(0);\npub fn bump() -> u32 { C.fetch_add(1, std::sync::atomic::Ordering::SeqCst) + 1 }\n"
     return suite_c05(pid, tier, mk, extra, mal, extra_rs)
 
@@ -427,6 +448,9 @@ C13_TYPES = [  # (declared type, rust value, how the body prints it, expected te
     ("ContentType", "ContentType", "@{x}", "CT"), ("Contents", "Contents", "@{x}", "CS"), ("MyContent", "MyContent", "@{x}", "MC"), ("&ContentType", "&ContentType", "@{x}", "CT"),
     ("Vec<ContentType>", "vec![ContentType]", "@{x}.len()", "1"), ("Option<&'a ContentType>", "None", "@{x}.is_none()", "true"),
     ("Content", '|o| { use std::io::Write; o.write_all(b"<blk>") }', "@:{x}()", "<blk>"),
+    # a user type that is itself called Content, behind a prefix the type grammar separates with a space: not a block parameter
+    ("&'a Content", "&Content", "@{x}", "UC"), ("&'_ Content", "&Content", "@{x}", "UC"), ("& Content", "&Content", "@{x}", "UC"), ("&'a  Content", "&Content", "@{x}", "UC"),
+    ("Option<&'a Content>", "Some(&Content)", "@{x}.unwrap()", "UC"), ("&[Content]", "&[Content, Content]", "@{x}.len()", "2"), ("(u8, Content)", "(1, Content)", "@{x}.1", "UC"),
 ]
 C13_NAMES = ["a", "bb", "_ructe_out_x", "W_", "io", "content", "Content_", "x1", "self_", "out", "w", "Z9"]
 def run_c13(pid, tier):
@@ -436,8 +460,13 @@ def run_c13(pid, tier):
     user_rs = ("use std::fmt;\npub struct ContentType; pub struct Contents; pub struct MyContent;\n"
                "impl fmt::Display for ContentType { fn fmt(&self, f: &mut fmt::Formatter) -> fmt::Result { f.write_str(\"CT\") } }\n"
                "impl fmt::Display for Contents { fn fmt(&self, f: &mut fmt::Formatter) -> fmt::Result { f.write_str(\"CS\") } }\n"
-               "impl fmt::Display for MyContent { fn fmt(&self, f: &mut fmt::Formatter) -> fmt::Result { f.write_str(\"MC\") } }\n")
-    USES = ["std::fmt::Display", "std::collections::HashMap as Map", "crate::{ContentType, Contents, MyContent}", "std::cmp::*", "std::fmt::{self, Write as FmtWrite}"]
+               "impl fmt::Display for MyContent { fn fmt(&self, f: &mut fmt::Formatter) -> fmt::Result { f.write_str(\"MC\") } }\n"
+               "pub struct Content; impl fmt::Display for Content { fn fmt(&self, f: &mut fmt::Formatter) -> fmt::Result { f.write_str(\"UC\") } }\n"
+               "pub mod models { pub struct Portfolio; pub struct Studio; pub mod audio {} }\npub mod util { pub struct SafeHtml; pub struct NotToHtml; pub trait LineWrite {} pub mod stdio {} pub fn html() {} pub fn write() {} }\n")
+    USES = ["std::fmt::Display", "std::collections::HashMap as Map", "crate::{ContentType, Contents, MyContent}", "crate::Content", "std::cmp::*", "std::fmt::{self, Write as FmtWrite}",
+            # imported names that end in / resemble the names the generated header itself imports (io, Write, Html, ToHtml)
+            "crate::models::Portfolio", "crate::models::Studio", "crate::models::audio", "crate::util::SafeHtml", "crate::util::NotToHtml", "crate::util::LineWrite", "crate::util::stdio",
+            "crate::util::html", "crate::util::write", "std::io::BufWriter", "std::io::Write as IoWrite", "crate::util::{SafeHtml as H2}", "std::fmt::Write as _"]
     cases = []
     for i in range(n):
         k = rng.randint(0, 8)
@@ -453,7 +482,7 @@ def run_c13(pid, tier):
             exp += ex + ","
             args.append(val)
         sep = rng.choice([", ", ",", ",\n    ", ", "])
-        uses = list(USES[:3]) + rng.sample(USES[3:], rng.randint(0, 2))
+        uses = list(USES[:4]) + rng.sample(USES[4:], rng.randint(0, 4))
         rng.shuffle(uses)
         lifetimes = rng.choice(["<'a>", "<'a, 'b>", "<'a,'b>", "< 'a>"]) if need_a or rng.random() < 0.2 else ""
         open_ws = rng.choice(["", " ", "\n  "]); close_ws = rng.choice(["", " ", "\n"])
